@@ -33,8 +33,9 @@ def sym_elem_names(sym):
 
 
 def model_groups(model):
-    if hasattr(model, "_states_vector"):
-        raise EncodingGap("affine-reduced model: inputs are anonymous vectors")
+    # NOTE: for an affine-reduced model (reduce_affine_expression) the Function inputs are the
+    # anonymous vectors _states_vector, ... which have exactly the sizes and element order of the
+    # veccat of the symbols below, so positional naming is still right.
     return [
         [model.time],
         model._symbols(model.states),
